@@ -318,7 +318,80 @@ macro_rules! numtype {
     }};
 }
 
+/// Handler-side arithmetic on a <numeric_value> before it is resolved (a handler scaling mV to V, shifting by an offset):
+/// `* k`, `/ k` (k > 0), `+ a`, `- a` and `map` transform a value and leave MIN/MAX/DEF/UP/DOWN what they are, so that
+/// MAXimum still resolves to the maximum afterwards.
+fn arithmetic(cfg: &Cfg, rep: &mut Report) {
+    run_cases(cfg, "arithmetic", cfg.n(8, 400_000, 8_000_000), rep, |rng, ctx| {
+        bump(ctx, 1);
+        let words: [(&[u8], u8); 10] = [(b"MAX", 1), (b"MAXimum", 1), (b"MIN", 2), (b"minimum", 2), (b"DEF", 3), (b"default", 3), (b"UP", 4), (b"DOWN", 5), (b"12.5", 0), (b"-3", 0)];
+        let (w, kind) = *rng.pick(&words);
+        let tok = if kind == 0 { Token::DecimalNumericProgramData(w) } else { Token::CharacterProgramData(w) };
+        let k: f64 = *rng.pick(&[1.0, 2.0, 0.5, 1000.0, 1e-3, 8.0, 1e6]);
+        let a: f64 = *rng.pick(&[0.0, 1.0, -1.0, 100.0, -0.25]);
+        let ops: Vec<u8> = (0..1 + rng.usize(3)).map(|_| rng.usize(5) as u8).collect();
+        macro_rules! go {
+            ($t:ty, $name:literal) => {{
+                let mut nv: NumericValue<$t> = match NumericValue::<$t>::try_from(tok) {
+                    Ok(v) => v,
+                    Err(_) => return,
+                };
+                let mut want: f64 = if kind == 0 { std::str::from_utf8(w).unwrap().parse().unwrap() } else { 0.0 };
+                for op in &ops {
+                    match op {
+                        0 => {
+                            nv = nv * (k as $t);
+                            want *= k;
+                        }
+                        1 => {
+                            nv = nv / (k as $t);
+                            want /= k;
+                        }
+                        2 => {
+                            nv = nv + (a as $t);
+                            want += a;
+                        }
+                        3 => {
+                            nv = nv - (a as $t);
+                            want -= a;
+                        }
+                        _ => nv = nv.map(|t| t),
+                    }
+                }
+                ctx.nontrivial(mix(hash_bytes(w), mix(hash_str($name), ops.iter().fold(k.to_bits() ^ a.to_bits(), |h, o| h.wrapping_mul(7).wrapping_add(*o as u64)))));
+                ctx.count(&format!("arithmetic.{}", $name));
+                let same_kind = match (&nv, kind) {
+                    (NumericValue::Value(v), 0) => ((*v as f64) - want).abs() <= 1e-3 * want.abs().max(1.0),
+                    (NumericValue::Maximum, 1) | (NumericValue::Minimum, 2) | (NumericValue::Default, 3) | (NumericValue::Up, 4) | (NumericValue::Down, 5) => true,
+                    _ => false,
+                };
+                if !same_kind {
+                    ctx.violation("C17:arithmetic:keyword-or-value-changed-by-handler-side-arithmetic", jobj(&[("type", jstr($name)), ("element", jbytes(w)), ("ops(0*k,1/k,2+a,3-a,4map)", jstr(&format!("{:?}", ops))), ("k", jstr(&format!("{}", k))), ("a", jstr(&format!("{}", a))), ("result", jstr(&format!("{:?}", nv)))]));
+                    return;
+                }
+                // resolution afterwards: MAX -> max, MIN -> min
+                let (lo, hi) = (-5000.0 as $t, 7000.0 as $t);
+                let r = nv.finish_with(hi, lo);
+                let ok = match kind {
+                    1 => matches!(r, Ok(v) if v == hi),
+                    2 => matches!(r, Ok(v) if v == lo),
+                    _ => true,
+                };
+                if !ok {
+                    ctx.violation("C17:arithmetic:MIN-or-MAX-resolves-to-another-bound-after-arithmetic", jobj(&[("type", jstr($name)), ("element", jbytes(w)), ("ops(0*k,1/k,2+a,3-a,4map)", jstr(&format!("{:?}", ops))), ("k", jstr(&format!("{}", k))), ("resolved", jstr(&format!("{:?}", r.map_err(|e| e.get_code()))))]));
+                }
+            }};
+        }
+        if ctx.index % 2 == 0 {
+            go!(f64, "f64")
+        } else {
+            go!(f32, "f32")
+        }
+    });
+}
+
 pub fn run(cfg: &Cfg, rep: &mut Report) {
+    arithmetic(cfg, rep);
     let n = cfg.n(200, 20_000_000, 1_200_000_000);
     run_cases(cfg, "numeric_value", n, rep, |rng, ctx| {
         match ctx.index % 15 {
